@@ -1,66 +1,183 @@
 """C33 - 0MQ publishing delivers documents intact and filters by prefix.
 
 Carriers: bluesky/callbacks/zmq.py: Publisher.__init__ (prefix checks), Publisher.__call__ (framing),
-RemoteDispatcher.__init__ (prefix checks), RemoteDispatcher._poll (one loop iteration: parsing, filtering, delivery).
-Framing: frame = prefix ++ " " ++ encode(name) ++ " " ++ serialize(deepcopy(doc)); parsing: split(b" ", 2), defined through
-indexof.  Obligations (bytes are SMT strings; z3 with cvc5 taking z3's unknowns):
+RemoteDispatcher.__init__ (prefix checks), RemoteDispatcher._poll (loop iterations: parsing, filtering, delivery).
+Framing: frame = prefix ++ " " ++ encode(name) ++ " " ++ serialize(deepcopy(doc)); parsing: split(b" ", 2), defined by
+recursion through indexof.  Obligations (bytes are SMT strings; z3 with cvc5 taking z3's unknowns):
   round trip: for every prefix without a space (checked by the constructor), every document name (no name contains a space)
      and every payload (arbitrary bytes, spaces allowed), one _poll iteration on the frame built by Publisher.__call__
      schedules exactly process(DocumentNames[name], deserialize(payload)) when the dispatcher's prefix is empty or equal,
-     and nothing when it differs; order is the loop's FIFO order (call_soon)
-  malformed frames (arbitrary bytes not of that form: fewer than two spaces, undecodable or unknown name, payload that
-     does not deserialize): non-strict -> nothing is scheduled and the iteration completes normally (the loop goes on);
-     strict -> Bluesky0MQDecodeError
+     and nothing when it differs (ANY other space-free byte string: shorter, longer, sharing a head or a tail)
+  histories: two publishers with arbitrary distinct prefixes interleave their frames on one proxy; a dispatcher delivers
+     exactly the frames of its publisher (all frames when it has no prefix), in arrival order (call_soon is FIFO)
+  malformed frames (arbitrary bytes not of that form: fewer than two spaces, undecodable or unknown name, payload on which
+     the deserializer raises ANY Exception): non-strict -> nothing is scheduled, the iteration completes normally and the
+     frame that follows is delivered; strict -> Bluesky0MQDecodeError; for dispatchers with and without a prefix
   constructors reject str prefixes and prefixes containing a space.
+Query hygiene: the frames built by the real Publisher are concatenations whose head pieces are space-free, so the split
+stub resolves their separators syntactically (rule proved once from the indexof definition: task split_lemma) and only
+falls back to indexof terms for pieces that may contain a space (payloads, arbitrary messages).
 """
 import z3
 
 from .lib import *
 from .bundler_lib import run_coro
+from pyvc.source import ClassInfo
 
 PROP = "C33"
 MZ = "bluesky.callbacks.zmq"
-TRUSTED = ["bytes are strings over code points 0..255; bytes.split(b' ', 2) is defined through indexof (first two spaces); b' '.join concatenates with separators",
+TRUSTED = ["bytes are strings over code points 0..255; bytes.split(b' ', n) is defined by recursion through indexof: no space -> [s]; "
+           "otherwise [s[:i]] + split(s[i+1:], n-1) with i the first space (for a concatenation a ++ ' ' ++ r with a space-free this is "
+           "[a] + split(r, n-1): lemma proved in task split_lemma); rsplit symmetrically (the last space of x is where x == u ++ ' ' ++ v with v "
+           "space-free); b' '.join concatenates with separators",
            "str.encode / bytes.decode: identity on the model's strings, decode raising UnicodeDecodeError exactly for byte strings outside an (uninterpreted) "
            "'decodable' set that contains every encoded str",
-           "pickle: deserialize(serialize(doc)) is doc's value; a payload either deserializes or raises (arbitrary)",
+           "serializer / deserializer: deserialize(serialize(doc)) is doc's value (copy.deepcopy(doc) has doc's value); on any other payload the "
+           "deserializer either returns or raises an arbitrary Exception (a class unrelated to every built-in one, ValueError, KeyError, "
+           "UnicodeDecodeError - the classes _poll names in its handlers - are the enumerated representatives)",
            "the transport delivers frames whole and in order (in-memory transport of the property); loop.call_soon is FIFO",
            "event_model.DocumentNames[name] raises KeyError for unknown names; known names contain no space",
            "zmq / zmq.asyncio objects are opaque (connect / socket / setsockopt are effect-free here)"]
-NOT_DECIDED = "real sockets, the Proxy, high-water marks; the start/stop of the polling task"
+NOT_DECIDED = ("real sockets, the Proxy, high-water marks; the start/stop of the polling task; deserializers that raise a BaseException outside "
+               "Exception; bytes-versus-str type errors inside the diagnostics printed for dropped frames (both are strings in the model)")
 KF = "C33-unknown-document-name-kills-poll-loop"
 KNOWN = ["start", "stop", "event", "descriptor", "event_page", "datum", "resource", "datum_page", "stream_resource", "stream_datum", "bulk_events", "bulk_datum"]
 DECODABLE = z3.Function("utf8_decodable", z3.StringSort(), z3.BoolSort())
+SP = z3.StringVal(" ")
+SPACE = "<space>"          # marker in flattened concatenations
+ANY_EXC = ClassInfo("SomeDeserializerError", bases=[BUILTIN_CLASSES["Exception"]], builtin=True)
+DESER_RAISES = [ANY_EXC, "ValueError", "KeyError", "UnicodeDecodeError"]
+
+NM_RT = f"{MZ}:RemoteDispatcher._poll#ensures[a published frame is delivered intact iff the prefixes match]"
+NM_HIST = f"{MZ}:RemoteDispatcher._poll#ensures[interleaved frames of two publishers: exactly the frames of the dispatcher's publisher are delivered, in order]"
+NM_MAL = (f"{MZ}:RemoteDispatcher._poll#ensures[a frame that is not well-formed is never delivered; non-strict: dropped and the loop continues; "
+          "strict: Bluesky0MQDecodeError]")
+NM_FRAME = f"{MZ}:Publisher.__call__#ensures[exactly one frame sent]"
 
 
 def B(term):
     return Sym(term, ("bytes",))
 
 
-def install(I, scheduled, printed):
+# ----------------------------------------------------------------------------- split
+def flatten(t):
+    """a string term as a list of items (z3 terms / SPACE): concatenations are flattened, constants are cut at spaces"""
+    t = z3.simplify(t)
+    out = []
+
+    def walk(x):
+        if z3.is_app_of(x, z3.Z3_OP_SEQ_CONCAT):
+            for c in x.children():
+                walk(c)
+        elif z3.is_string_value(x) and " " in x.as_string():
+            parts = x.as_string().split(" ")
+            items = []
+            for j, p in enumerate(parts):
+                if j:
+                    items.append(SPACE)
+                if p:
+                    items.append(z3.StringVal(p))
+            if z3.is_true(z3.simplify(unflatten(items) == x)):
+                out.extend(items)
+            else:                      # a constant whose text form does not round-trip: leave it whole (general path)
+                out.append(x)
+        elif z3.is_string_value(x) and x.as_string() == "":
+            pass
+        else:
+            out.append(x)
+    walk(t)
+    return out
+
+
+def unflatten(items):
+    ts = [SP if it is SPACE else it for it in items]
+    if not ts:
+        return z3.StringVal("")
+    return ts[0] if len(ts) == 1 else z3.Concat(*ts)
+
+
+def space_free(w, item):
+    """is the item provably free of spaces on this path (constants syntactically, terms by one small query)"""
+    if item is SPACE:
+        return False
+    if z3.is_string_value(item):
+        return " " not in item.as_string()
+    cache = w.ghost.setdefault("$spacefree", {})
+    k = (item.get_id(), len(w.assertions))
+    if k not in cache:
+        cache[k] = not w.feasible(ops.mk(z3.Contains(item, SP)))
+    return cache[k]
+
+
+def split_sym(w, st, maxsplit):
+    """s.split(b' ', maxsplit) by the recursive definition; separators of a concatenation whose leading pieces are space-free are
+    resolved syntactically (lemma split_lemma), all others through indexof"""
+    items = flatten(st)
+    base, off = None, None           # general mode: the rest of the string is base[off:]
+    out, n = [], 0
+    while maxsplit < 0 or n < maxsplit:
+        if maxsplit < 0 and n == 3:
+            # unlimited split with more than three separators: the pieces beyond are not modelled - only the length
+            # of the result (>= 5) may be used; the poison elements make any other use an engine error
+            return out + [Opaque("unmodelled split piece", {}), Opaque("unmodelled split piece", {})]
+        if base is None:
+            k = items.index(SPACE) if SPACE in items else None
+            if k is not None and all(space_free(w, x) for x in items[:k]):
+                out.append(B(unflatten(items[:k])))
+                items = items[k + 1:]
+                n += 1
+                continue
+            base, off = unflatten(items), z3.IntVal(0)
+        i = z3.IndexOf(base, SP, off)
+        if not w.branch(ops.mk(i >= 0), f"frame has separator #{n + 1}"):
+            break
+        out.append(B(z3.SubString(base, off, i - off)))
+        off = i + 1
+        n += 1
+    return out + [B(unflatten(items) if base is None else z3.SubString(base, off, z3.Length(base) - off))]
+
+
+def install(I, printed):
     w = I.w
     w.quick_z3(250)
 
     def split(I_, s, args, kwargs):
         sep = args[0] if args else kwargs.get("sep")
         maxsplit = args[1] if len(args) > 1 else kwargs.get("maxsplit", -1)
-        if not (isinstance(sep, (bytes, str)) and len(sep) == 1 and isinstance(maxsplit, int)):
-            raise EngineError("only split(<one char>[, <concrete maxsplit>]) is modelled")
-        st, sp = s.t, z3.StringVal(sep.decode("latin-1") if isinstance(sep, bytes) else sep)
-        out, start, n = [], z3.IntVal(0), 0
-        while maxsplit < 0 or n < maxsplit:
-            i = z3.IndexOf(st, sp, start)
-            if not w.branch(ops.mk(i >= 0), f"frame has separator #{n + 1}"):
-                break
-            if maxsplit < 0 and n == 3:
-                # unlimited split with more than three separators: the pieces beyond are not modelled - only the length
-                # of the result (>= 5) may be used; the poison elements make any other use an engine error
-                return out + [Opaque("unmodelled split piece", {}), Opaque("unmodelled split piece", {})]
-            out.append(B(z3.SubString(st, start, i - start)))
-            start = i + 1
-            n += 1
-        return out + [B(z3.SubString(st, start, z3.Length(st) - start))]
+        if not (isinstance(sep, (bytes, str)) and sep in (b" ", " ") and isinstance(maxsplit, int)):
+            raise EngineError("only split(<space>[, <concrete maxsplit>]) is modelled")
+        return split_sym(w, s.t, maxsplit)
     w.stubs["str.split"] = split
+
+    def rsplit(I_, s, args, kwargs):
+        """s.rsplit(b' ', n), n concrete >= 0: by recursion from the right (only mutated code uses it)"""
+        sep = args[0] if args else kwargs.get("sep")
+        maxsplit = args[1] if len(args) > 1 else kwargs.get("maxsplit", -1)
+        if not (isinstance(sep, (bytes, str)) and sep in (b" ", " ") and isinstance(maxsplit, int) and maxsplit >= 0):
+            raise EngineError("only rsplit(<space>, <concrete maxsplit>) is modelled")
+        # the last separator of x is characterised by x == u ++ ' ' ++ v with v space-free (u, v unique); trailing space-free pieces of a
+        # concatenation are resolved syntactically as in split_sym
+        items, out, n = flatten(s.t), [], 0
+        while n < maxsplit:
+            cand = [j for j in range(len(items)) if items[j] is SPACE or not space_free(w, items[j])]
+            if not cand:
+                break                                     # no space left
+            c = cand[-1]                                  # everything to the right of position c is space-free
+            if items[c] is SPACE:
+                out.insert(0, B(unflatten(items[c + 1:])))
+                items = items[:c]
+                n += 1
+                continue
+            x = items[c]
+            if not w.branch(ops.mk(z3.Contains(x, SP)), f"frame has separator #{n + 1} from the right"):
+                continue                                  # x is space-free on this path: look again
+            u, v = w.str("rsplit_head", fresh=True).t, w.str("rsplit_tail", fresh=True).t
+            w.add(ops.mk(z3.And(x == z3.Concat(u, SP, v), z3.Not(z3.Contains(v, SP)))))
+            out.insert(0, B(unflatten([v] + items[c + 1:])))
+            items = items[:c] + [u]
+            n += 1
+        return [B(unflatten(items))] + out
+    w.stubs["str.rsplit"] = rsplit
     w.stubs["str.encode"] = lambda I_, s, args: B(s.t) if isinstance(s, Sym) else B(z3.StringVal(s))
 
     def decode(I_, s, args):
@@ -70,9 +187,14 @@ def install(I, scheduled, printed):
     w.stubs["str.decode"] = decode
 
     def docnames_getitem(I_, o, k):
-        for n in KNOWN:
-            if I_.truth(ops.eq(k, n), f"name == {n}"):
-                return o.spec["attrs"][n]
+        """DocumentNames[k]: the member named k (one object per name) / KeyError for any other key"""
+        hits = [ops.eq(k, n) for n in KNOWN]
+        if all(isinstance(h, bool) for h in hits):
+            if any(hits):
+                return o.spec["attrs"][KNOWN[hits.index(True)]]
+            I_.raise_("KeyError", k)
+        if I_.truth(Or(*hits), "name is a document name"):
+            return Opaque("DocumentNames[name]", {"token": "docname", "attrs": {"name": k}, "truth": True})
         I_.raise_("KeyError", k)
     names = {n: Opaque(f"DocumentNames.{n}", {"token": "docname", "attrs": {"name": n}, "truth": True}) for n in KNOWN}
     w.stubs[(MZ, "DocumentNames")] = Opaque("DocumentNames", {"getitem": docnames_getitem, "attrs": names, "isinstance_default": False})
@@ -80,58 +202,112 @@ def install(I, scheduled, printed):
     return names
 
 
-def dispatcher(I, w, prefix, strict, scheduled, deser_ok, payload_marker):
-    loop = Opaque("loop", {"methods": {"call_soon": lambda I_, o, a, k: scheduled.append(tuple(a))}})
+def space_free_bytes(w, name):
+    """a symbolic byte string without a space (what both constructors establish for prefixes: task constructors)"""
+    s = B(w.str(name).t)
+    w.add(ops.mk(z3.Not(z3.Contains(s.t, SP))))
+    return s
+
+
+def dispatcher(I, w, prefix, strict, scheduled, outcomes):
+    """RemoteDispatcher pre-state; outcomes[k] says whether the payload of the k-th frame deserializes (True / symbolic bool; frames
+    beyond the list do).  A failing call raises an arbitrary Exception (DESER_RAISES)."""
+    # deliveries (observed at the subscribed callbacks' entry, Dispatcher.process): through loop.call_soon (FIFO: they run in the order
+    # recorded) or by a direct call; a mixture of the two routes would not keep the order and is rejected by `iterations`
+    routes = w.ghost.setdefault("$routes", [])
+
+    def call_soon(I_, o, a, k):
+        scheduled.append(tuple(a))
+        routes.append("soon")
+    loop = Opaque("loop", {"methods": {"call_soon": call_soon}})
+    received = w.ghost.setdefault("$frames received", [0])
 
     def deser(I_, a, k):
-        if deser_ok is not True and not w.branch(deser_ok, "payload deserializes"):
-            raise PyRaise(Obj(BUILTIN_CLASSES["ValueError"], {"args": ("unpickling error",), "__cause__": None}))
-        return payload_marker(a[0])
+        ok = outcomes[received[0] - 1] if 0 < received[0] <= len(outcomes) else True
+        if ok is not True and not w.branch(ok, "payload deserializes"):
+            cls = w.choose(DESER_RAISES, "deserializer raises")
+            raise PyRaise(Obj(I_.exc_class(cls), {"args": ("cannot deserialize",), "__cause__": None}))
+        return ("deserialized", a[0])
     d = bare(I, f"{MZ}:RemoteDispatcher", _prefix=prefix, _strict=strict, loop=loop, _deserializer=native(deser),
              _socket=Opaque("socket", {"methods": {"recv": lambda I_, o, a, k: Opaque("recv()", {"awaitable": True})}}))
-    d.attrs["process"] = native(lambda I_, a, k: None)
-    return d
+    def direct(I_, a, k):
+        scheduled.append((process,) + tuple(a))
+        routes.append("direct")
+    process = native(direct)
+    d.attrs["process"] = process
+    return d, process
 
 
-def one_iteration(I, d, message):
-    """runs _poll until it asks for the second message"""
+def iterations(I, d, messages):
+    """runs _poll over the given frames until it asks for one more"""
     coro = I.call_value(I.getattr(d, "_poll"))
-    n = [0]
+    n = I.w.ghost.setdefault("$frames received", [0])
 
     def on_await(payload):
         n[0] += 1
-        if n[0] == 1:
-            return ("send", message)
-        raise PathEnd("second recv")
+        if n[0] <= len(messages):
+            return ("send", messages[n[0] - 1])
+        raise _Consumed("all frames consumed")
     try:
         run_coro(I, coro, on_await)
-        return ("returned", None)
+        return ("returned", None, n[0])
     except PyRaise as pr:
-        return ("raise", pr.exc)
-    except PathEnd:
-        return ("next", None)
+        return ("raise", pr.exc, n[0])
+    except _Consumed:
+        if len(set(I.w.ghost.get("$routes", []))) > 1:
+            return ("mixed delivery routes", None, n[0])
+        return ("next", None, n[0])
 
 
-@task("roundtrip", PROP, functions=[f"{MZ}:Publisher.__call__", f"{MZ}:RemoteDispatcher._poll"],
-      expect=[f"{MZ}:RemoteDispatcher._poll#ensures[a published frame is delivered intact iff the prefixes match]"],
-      covers=["delivered", "filtered out"])
+class _Consumed(PathEnd):
+    pass
+
+
+def publisher(I, w, prefix, sent, docs):
+    """the real Publisher over a recording socket; the serializer maps doc k (or its deep copy) to payload k"""
+    sock = Opaque("socket", {"methods": {"send": lambda I_, o, a, k: sent.append(a[0])}})
+    copies = {}
+
+    def deepcopy(I_, a, k):
+        for dk, (doc, payload) in enumerate(docs):
+            if a[0] is doc:
+                return copies.setdefault(dk, Opaque(f"deepcopy(doc{dk})", {"token": "doc"}))
+        return Opaque("deepcopy(?)", {})
+    w.stubs["copy.deepcopy"] = deepcopy
+
+    def ser(I_, a, k):
+        for dk, (doc, payload) in enumerate(docs):
+            if a[0] is doc or a[0] is copies.get(dk):
+                return payload
+        return B(w.str("payload of something else", fresh=True).t)
+    return bare(I, f"{MZ}:Publisher", _prefix=prefix, _socket=sock, _serializer=native(ser))
+
+
+def delivered_is(entry, process, docname, payload):
+    """the scheduled call is process(docname, deserialize(payload))"""
+    if len(entry) != 3:
+        return False
+    f, dn, pl = entry
+    if not (f is process and dn is docname and isinstance(pl, tuple) and len(pl) == 2 and pl[0] == "deserialized"):
+        return False
+    return ops.eq(pl[1], payload)
+
+
+@task("roundtrip", PROP, functions=[f"{MZ}:Publisher.__call__", f"{MZ}:RemoteDispatcher._poll"], expect=[NM_RT],
+      covers=["delivered", "filtered out", "dispatcher prefix extends the publisher's", "publisher prefix extends the dispatcher's"])
 def roundtrip(I):
     w = I.w
-    scheduled, printed = [], []
-    names = install(I, scheduled, printed)
-    pub_prefix = B(w.str("pub_prefix").t)
-    w.add(ops.not_(I.contains(pub_prefix, b" ")))                       # established by Publisher.__init__ (task constructors)
-    name = w.choose(["start", "event", "stream_datum"], "document name")   # no known name contains a space (enumerated below)
+    scheduled, printed, sent = [], [], []
+    names = install(I, printed)
+    pub_prefix = space_free_bytes(w, "pub_prefix")
+    name = w.choose(KNOWN, "document name")                  # no known name contains a space (lemma below)
     payload = B(w.str("payload").t)
-    sent = []
-    sock = Opaque("socket", {"methods": {"send": lambda I_, o, a, k: sent.append(a[0])}})
     doc = Opaque("doc", {"token": "doc"})
-    w.stubs["copy.deepcopy"] = lambda I_, a, k: a[0]
-    pub = bare(I, f"{MZ}:Publisher", _prefix=pub_prefix, _socket=sock, _serializer=native(lambda I_, a, k: payload))
+    pub = publisher(I, w, pub_prefix, sent, [(doc, payload)])
     w.add(ops.mk(DECODABLE(z3.StringVal(name))))
     I.call_value(pub, name, doc)
     if len(sent) != 1:
-        w.fail(f"{MZ}:Publisher.__call__#ensures[exactly one frame sent]")
+        w.fail(NM_FRAME, {"replay": "zmqframes.roundtrip"})
         return
     filt = w.choose(["no prefix", "same prefix", "other prefix"], "dispatcher prefix")
     if filt == "no prefix":
@@ -139,73 +315,161 @@ def roundtrip(I):
     elif filt == "same prefix":
         dprefix = pub_prefix
     else:
-        dprefix = B(w.str("disp_prefix").t)
+        dprefix = space_free_bytes(w, "disp_prefix")
         w.add(And(ops.not_(ops.eq(dprefix, pub_prefix)), ops.not_(ops.eq(dprefix, b""))))
+        for label, c in (("dispatcher prefix extends the publisher's", z3.PrefixOf(pub_prefix.t, dprefix.t)),
+                         ("publisher prefix extends the dispatcher's", z3.PrefixOf(dprefix.t, pub_prefix.t))):
+            if label not in w.covered and w.feasible(ops.mk(c)):
+                w.covered.add(label)
     strict = w.choose([False, True], "strict")
-    d = dispatcher(I, w, dprefix, strict, scheduled, True, lambda p: ("deserialized", p))
-    out = one_iteration(I, d, sent[0])
-    nm = f"{MZ}:RemoteDispatcher._poll#ensures[a published frame is delivered intact iff the prefixes match]"
+    d, process = dispatcher(I, w, dprefix, strict, scheduled, [])
+    out = iterations(I, d, [sent[0]])
     rp = {"replay": "zmqframes.roundtrip"}
     if filt == "other prefix":
         w.cover("filtered out")
-        w.check(nm, out[0] == "next" and scheduled == [], rp)
+        w.check(NM_RT, out[0] == "next" and scheduled == [], rp)
         return
     w.cover("delivered")
-    ok = out[0] == "next" and len(scheduled) == 1
-    cond = ok
-    if ok:
-        f, dn, pl = scheduled[0]
-        cond = And(dn is names[name], pl[0] == "deserialized", ops.eq(pl[1], payload))
-    w.check(nm, cond, rp)
+    w.check(NM_RT, out[0] == "next" and len(scheduled) == 1 and delivered_is(scheduled[0], process, names[name], payload), rp)
 
 
-@task("malformed", PROP, functions=[f"{MZ}:RemoteDispatcher._poll"],
-      expect=[f"{MZ}:RemoteDispatcher._poll#ensures[a frame that is not well-formed is never delivered; non-strict: dropped and the loop continues; strict: Bluesky0MQDecodeError]"],
-      covers=["no space", "one space", "undecodable name", "unknown name", "bad payload", "well-formed"])
+TWIN_RT = "twin:C33.the delivered document is the deserialization of some other payload"
+
+
+@task("roundtrip_twin", PROP, functions=[f"{MZ}:Publisher.__call__", f"{MZ}:RemoteDispatcher._poll"], twin=TWIN_RT)
+def roundtrip_twin(I):
+    """must fail (whatever the code does): the round-trip clause with another payload in the place of the published one"""
+    w = I.w
+    scheduled, sent = [], []
+    names = install(I, [])
+    prefix = space_free_bytes(w, "pub_prefix")
+    doc = Opaque("doc", {"token": "doc"})
+    pub = publisher(I, w, prefix, sent, [(doc, B(w.str("payload").t))])
+    w.add(ops.mk(DECODABLE(z3.StringVal("start"))))
+    I.call_value(pub, "start", doc)
+    d, process = dispatcher(I, w, prefix, False, scheduled, [])
+    out = iterations(I, d, sent)
+    w.check(TWIN_RT, out[0] == "next" and len(scheduled) == 1 and delivered_is(scheduled[0], process, names["start"], B(w.str("other_payload").t)))
+
+
+@task("history", PROP, functions=[f"{MZ}:Publisher.__call__", f"{MZ}:RemoteDispatcher._poll"], expect=[NM_HIST],
+      covers=["both delivered", "one delivered", "none delivered"])
+def history(I):
+    """two publishers A, B (arbitrary distinct space-free prefixes) publish two frames in some interleaving; the dispatcher has no
+    prefix, A's prefix, or a third prefix"""
+    w = I.w
+    scheduled, printed = [], []
+    names = install(I, printed)
+    pa, pb = space_free_bytes(w, "prefix_a"), space_free_bytes(w, "prefix_b")
+    w.add(ops.not_(ops.eq(pa, pb)))
+    docs = [(Opaque("doc0", {"token": "doc"}), B(w.str("payload0").t)), (Opaque("doc1", {"token": "doc"}), B(w.str("payload1").t))]
+    docnames = ["start", "event"]
+    for n in docnames:
+        w.add(ops.mk(DECODABLE(z3.StringVal(n))))
+    order = w.choose(["AA", "AB", "BA", "BB"], "publishers of the two frames")
+    sent = []
+    for k, who in enumerate(order):
+        out_k = []
+        pub = publisher(I, w, pa if who == "A" else pb, out_k, docs)
+        I.call_value(pub, docnames[k], docs[k][0])
+        if len(out_k) != 1:
+            w.fail(NM_FRAME, {"replay": "zmqframes.history"})
+            return
+        sent.append(out_k[0])
+    filt = w.choose(["no prefix", "prefix of A", "third prefix"], "dispatcher prefix")
+    if filt == "no prefix":
+        dprefix, mine = b"", [0, 1]
+    elif filt == "prefix of A":
+        dprefix, mine = pa, [k for k in (0, 1) if order[k] == "A"]
+        w.add(ops.not_(ops.eq(pa, b"")))                 # a dispatcher *with* a prefix
+    else:
+        dprefix, mine = space_free_bytes(w, "disp_prefix"), []
+        w.add(And(ops.not_(ops.eq(dprefix, pa)), ops.not_(ops.eq(dprefix, pb)), ops.not_(ops.eq(dprefix, b""))))
+    strict = w.choose([False, True], "strict")
+    d, process = dispatcher(I, w, dprefix, strict, scheduled, [])
+    out = iterations(I, d, sent)
+    w.cover(["none delivered", "one delivered", "both delivered"][len(mine)])
+    cond = out[0] == "next" and out[2] == 3 and len(scheduled) == len(mine)
+    if cond:
+        cond = And(*[delivered_is(scheduled[j], process, names[docnames[k]], docs[k][1]) for j, k in enumerate(mine)])
+    w.check(NM_HIST, cond, {"replay": "zmqframes.history"})
+
+
+@task("malformed", PROP, functions=[f"{MZ}:RemoteDispatcher._poll"], expect=[NM_MAL],
+      covers=["no space", "one space", "undecodable name", "unknown name", "bad payload", "well-formed", "foreign prefix",
+              "deserializer raises an unrelated Exception"], timeout_s=2400)
 def malformed(I):
     w = I.w
     scheduled, printed = [], []
-    names = install(I, scheduled, printed)
+    names = install(I, printed)
     message = B(w.str("message").t)
+    pfx = w.choose(["no prefix", "prefix"], "dispatcher prefix")
+    dprefix = b"" if pfx == "no prefix" else space_free_bytes(w, "disp_prefix")
+    if pfx == "prefix":
+        w.add(ops.not_(ops.eq(dprefix, b"")))
     strict = w.choose([False, True], "strict")
     deser_ok = w.bool("payload_deserializes")
-    d = dispatcher(I, w, b"", strict, scheduled, deser_ok, lambda p: ("deserialized", p))
-    out = one_iteration(I, d, message)
+    d, process = dispatcher(I, w, dprefix, strict, scheduled, [deser_ok])
+    # the frame that follows: a well-formed one addressed to this dispatcher
+    payload2 = B(w.str("payload_after").t)
+    w.add(ops.mk(DECODABLE(z3.StringVal("stop"))))
+    follow = B(z3.Concat(dprefix.t if isinstance(dprefix, Sym) else z3.StringVal(""), z3.StringVal(" stop "), payload2.t))
+    out = iterations(I, d, [message, follow])
     # classify the frame independently of the code
     st = message.t
-    i1 = z3.IndexOf(st, z3.StringVal(" "), 0)
-    i2 = z3.IndexOf(st, z3.StringVal(" "), i1 + 1)
+    i1 = z3.IndexOf(st, SP, 0)
+    i2 = z3.IndexOf(st, SP, i1 + 1)
     two_spaces = ops.mk(z3.And(i1 >= 0, i2 >= 0))
+    prefix_t = z3.SubString(st, 0, i1)
     name_t = z3.SubString(st, i1 + 1, i2 - i1 - 1)
+    payload_t = z3.SubString(st, i2 + 1, z3.Length(st) - i2 - 1)
     decodable = ops.mk(DECODABLE(name_t))
     known = ops.mk(z3.Or(*[name_t == z3.StringVal(n) for n in KNOWN]))
     well_formed = And(two_spaces, decodable, known, deser_ok)
+    addressed = True if pfx == "no prefix" else ops.mk(prefix_t == dprefix.t)
+    foreign = And(two_spaces, Not(addressed))
+    deliverable = And(well_formed, addressed)
     for label, c in (("no space", ops.mk(i1 < 0)), ("one space", ops.mk(z3.And(i1 >= 0, i2 < 0))), ("undecodable name", And(two_spaces, Not(decodable))),
                      ("unknown name", And(two_spaces, decodable, Not(known))), ("bad payload", And(two_spaces, decodable, known, Not(deser_ok))),
-                     ("well-formed", well_formed)):
-        if w.feasible(c):
+                     ("well-formed", well_formed), ("foreign prefix", foreign)):
+        if label not in w.covered and w.feasible(c):
             w.cover(label)
-    nm = f"{MZ}:RemoteDispatcher._poll#ensures[a frame that is not well-formed is never delivered; non-strict: dropped and the loop continues; strict: Bluesky0MQDecodeError]"
+    if any(lbl == "deserializer raises" and v == 0 for lbl, v in w.decisions):
+        w.cover("deserializer raises an unrelated Exception")
     rp = {"replay": "zmqframes.malformed"}
     unknown_name = And(two_spaces, decodable, Not(known))
     if out[0] == "next":
-        cond = And(Implies(Not(well_formed), len(scheduled) == 0), Implies(well_formed, len(scheduled) == 1),
-                   Implies(Not(well_formed), strict is False))
-        w.check(nm, cond, rp)
+        # both frames consumed: the first is delivered iff it is a well-formed frame for this dispatcher, the second always;
+        # a malformed frame for this dispatcher passes silently only in non-strict mode (foreign frames: the statement only
+        # demands that nothing is delivered)
+        n_first = len(scheduled) - 1
+        ok = out[2] == 3 and n_first in (0, 1) and delivered_is(scheduled[-1], process, names["stop"], payload2)
+        if ok is False:
+            w.fail(NM_MAL, rp)
+            return
+        cond = And(ok, Implies(Not(deliverable), n_first == 0), Implies(deliverable, n_first == 1),
+                   Implies(And(Not(well_formed), Not(foreign)), strict is False))
+        if n_first == 1:
+            f, dn, pl = scheduled[0]
+            same = f is process and isinstance(dn, Opaque) and dn.spec.get("token") == "docname" and isinstance(pl, tuple) and pl[0] == "deserialized"
+            cond = And(cond, same and And(ops.eq(Sym(name_t), dn.spec["attrs"]["name"]), ops.eq(pl[1], B(payload_t))))
+        w.check(NM_MAL, cond, rp)
     elif out[0] == "raise":
         is_decode_error = exc_is(I, out[1], f"{MZ}:Bluesky0MQDecodeError")
-        # the only licensed exception: strict mode on a malformed frame
-        w.check_kf(nm, And(is_decode_error, strict is True, Not(well_formed), len(scheduled) == 0), KF, unknown_name, rp)
+        # the only licensed exception: strict mode on a malformed frame (before anything of it is delivered)
+        w.check_kf(NM_MAL, And(is_decode_error, strict is True, out[2] == 1, Not(well_formed), len(scheduled) == 0), KF, unknown_name, rp)
     else:
-        w.fail(nm, rp)
+        w.fail(NM_MAL, rp)
 
 
 @task("constructors", PROP, functions=[f"{MZ}:Publisher.__init__", f"{MZ}:RemoteDispatcher.__init__"],
       expect=[f"{MZ}:Publisher.__init__#raises[ValueError iff the prefix is a str or contains a space]",
-              f"{MZ}:RemoteDispatcher.__init__#raises[ValueError iff the prefix is a str or contains a space]"])
+              f"{MZ}:RemoteDispatcher.__init__#raises[ValueError iff the prefix is a str or contains a space]",
+              f"{MZ}:Publisher.__init__#ensures[the strict flag (default: not strict) and the (de)serializer are stored as given]",
+              f"{MZ}:RemoteDispatcher.__init__#ensures[the strict flag (default: not strict) and the (de)serializer are stored as given]"])
 def constructors(I):
     w = I.w
-    install(I, [], [])
+    install(I, [])
     kind = w.choose(["bytes", "str"], "prefix type")
     p = w.str("prefix")
     prefix = B(p.t) if kind == "bytes" else p
@@ -218,8 +482,16 @@ def constructors(I):
     which = w.choose(["Publisher", "RemoteDispatcher"], "class")
     I.call_hooks["bluesky.run_engine:Dispatcher.__init__"] = lambda I_, f, a, k: _ret(None)
     kw = {"prefix": prefix, "zmq": zmq}
+    codec = Opaque("codec", {"token": "codec"})
+    strict = None
     if which == "RemoteDispatcher":
         kw["zmq_asyncio"] = zmq
+        kw["deserializer"] = codec
+        strict = w.choose([False, True, "default"], "strict")
+        if strict != "default":
+            kw["strict"] = strict
+    else:
+        kw["serializer"] = codec
     r = catch(I, I.P.class_info(MZ, which), ("localhost", 5578), **kw)
     bad = Or(kind == "str", has_space)
     nm = f"{MZ}:{which}.__init__#raises[ValueError iff the prefix is a str or contains a space]"
@@ -227,6 +499,14 @@ def constructors(I):
         w.check(nm, And(exc_is(I, r[1], "ValueError"), bad), {"replay": "zmqframes.roundtrip"})
     else:
         w.check(nm, And(Not(bad), ops.eq(r[1]._prefix, prefix)), {"replay": "zmqframes.roundtrip"})
+        # the pre-state of the _poll / __call__ contracts is what the constructor was given
+        a = r[1].attrs
+        if which == "RemoteDispatcher":
+            stored = a.get("_deserializer") is codec and a.get("_strict") is (False if strict == "default" else strict)
+        else:
+            stored = a.get("_serializer") is codec
+        w.check(f"{MZ}:{which}.__init__#ensures[the strict flag (default: not strict) and the (de)serializer are stored as given]", stored,
+                {"replay": "zmqframes.constructed"})
 
 
 def _ret(v):
@@ -237,3 +517,38 @@ def _ret(v):
 @task("names_have_no_space", PROP, expect=["lemma:C33.no document name contains a space"])
 def names_no_space(I):
     I.w.check("lemma:C33.no document name contains a space", all(" " not in n for n in KNOWN))
+
+
+LEMMA = "lemma:C33.split of a concatenation whose head has no space (indexof definition)"
+
+
+@task("split_lemma", PROP, expect=[LEMMA])
+def split_lemma(I):
+    """the syntactic rule of split_sym, from the indexof definition: for a without a space, s = a ++ ' ' ++ r has its first space
+    at len(a), s[:len(a)] == a and s[len(a)+1:] == r; and a itself has no separator"""
+    w = I.w
+    w.quick_z3(250)
+    a, r = w.str("a").t, w.str("r").t
+    s = z3.Concat(a, SP, r)
+    w.add(ops.mk(z3.Not(z3.Contains(a, SP))))
+    i = z3.IndexOf(s, SP, 0)
+    import pyvc.world as W
+    budget = W.QUERY_TIMEOUT_MS
+    # z3's sequence solver gives up on the first part and cvc5 needs ~0.2 s; on a heavily loaded machine that can exceed the
+    # default budget, and every other task relies on this lemma: allow it a minute
+    W.QUERY_TIMEOUT_MS = max(budget, 60000)
+    try:
+        for g in (i == z3.Length(a), z3.SubString(s, 0, i) == a, z3.SubString(s, i + 1, z3.Length(s) - i - 1) == r, z3.IndexOf(a, SP, 0) < 0):
+            w.check(LEMMA, ops.mk(g))
+    finally:
+        W.QUERY_TIMEOUT_MS = budget
+
+
+@task("split_lemma_twin", PROP, twin="twin:C33.split rule without the space-free hypothesis")
+def split_lemma_twin(I):
+    """must fail: without the hypothesis the head piece is not a"""
+    w = I.w
+    w.quick_z3(250)
+    a, r = w.str("a").t, w.str("r").t
+    s = z3.Concat(a, SP, r)
+    w.check("twin:C33.split rule without the space-free hypothesis", ops.mk(z3.IndexOf(s, SP, 0) == z3.Length(a)))
